@@ -79,7 +79,7 @@ fn form_name(new: Option<u32>, old: Option<u32>, step: Option<u32>) -> &'static 
 
 /// The renumbering the manual defines, applied to the AST. `None` when an operand or a
 /// resulting number is not a line number at all (> 65529).
-fn model_renum(p: &Program, new: Option<u32>, old: Option<u32>, step: Option<u32>) -> Option<(Program, BTreeMap<u16, u16>)> {
+pub fn model_renum(p: &Program, new: Option<u32>, old: Option<u32>, step: Option<u32>) -> Option<(Program, BTreeMap<u16, u16>)> {
     let new = new.unwrap_or(10);
     let old = old.unwrap_or(0);
     let step = step.unwrap_or(10);
